@@ -276,7 +276,7 @@ GRAMMAR = r"""
 
     do_step: "DO" NUMBER "BY" NUMBER "STEP" (NUMBER|SIGNED_NUMBER) (NUMBER|SIGNED_NUMBER)
 
-    ORIENTATION.2: /F?[NWES]/ WS
+    ORIENTATION.2: /F?[NWES](?=[ \t\f\r\n])/
     ID: /[^ \t\f\r\n+][^ \t\f\r\n]*/
     STRING : "\"" /.*?/s /(?<!\\)(\\\\)*?/ "\""
     WS: /[ \t\f\r\n]/
